@@ -512,6 +512,9 @@ func fromFiles(dir, prefix string, exclude string) []seen {
 func compare(what string, got []seen, want map[int64]string) error {
 	gotIDs := map[int64]int{}
 	for _, g := range got {
+		if g.ID >= 1_000_000 {
+			continue // preamble and sentinel events of the overflow variant (a late sentinel may still arrive): not judged
+		}
 		gotIDs[g.ID]++
 		w, ok := want[g.ID]
 		if !ok {
@@ -760,7 +763,7 @@ func overflowFirst(c cfg, events []ev) error {
 	for n, deadline := 0, time.Now().Add(30*time.Second); !drained && time.Now().Before(deadline); n++ {
 		sid := int64(2_000_000 + n)
 		emit(ev{ID: sid, Entry: "Record", Level: pre.Level, Tag: "a"})
-		for until := time.Now().Add(500 * time.Millisecond); !drained && time.Now().Before(until); time.Sleep(time.Millisecond) {
+		for until := time.Now().Add(25 * time.Millisecond); !drained && time.Now().Before(until); time.Sleep(500 * time.Microsecond) {
 			for _, r := range vk.AllRecs() {
 				for _, it := range r.Items() {
 					if it.ID == sid || (it.Raw && vk.IDFromLine(it.Bytes) == sid) {
